@@ -9,6 +9,7 @@ from ..indep import envmodel, ihex, layout as L, mcbor
 from ..indep.refenc import uuid5, DNS
 from ..mon import effects
 from . import common, signing
+from ..mon import faults
 
 ID = "C07"
 RULE = ("sets of 1-8 envelopes created from generated descriptions (signed through ncs/sign_script.py or unsigned, any "
@@ -100,6 +101,7 @@ def slot_bytes(Es, cid):
     return off, mcbor.enc({0: 1, 1: off, 2: Es})
 
 
+@faults.guarded()
 def run_boot(route, files, outdir, base, kconfig, soc, wd):
     try:
         if route == "lib":
